@@ -321,7 +321,9 @@ def do_check(prop, tier, args):
 
 def write_evidence(prop, tier, seed, agg, wall, n_viol, reg_n, n_known,
                    base):
-    os.makedirs(os.path.join(HERE, "evidence"), exist_ok=True)
+    evdir = os.environ.get("VERIF_EVIDENCE_DIR") or os.path.join(HERE,
+                                                                  "evidence")
+    os.makedirs(evdir, exist_ok=True)
     faults = {k[6:]: v for k, v in agg.stats.items()
               if k.startswith("fault:")}
     opsk = {k[3:]: v for k, v in agg.stats.items() if k.startswith("op:")}
@@ -361,7 +363,7 @@ def write_evidence(prop, tier, seed, agg, wall, n_viol, reg_n, n_known,
         "wall_s": round(wall, 2),
         "violations": n_viol,
     }
-    path = os.path.join(HERE, "evidence", "%s.json" % prop)
+    path = os.path.join(evdir, "%s.json" % prop)
     with open(path, "w") as f:
         json.dump(ev, f, indent=1, sort_keys=True, default=repr)
 
